@@ -79,7 +79,7 @@ CLAIMS = {
    technique="contract-based deductive verification (Verus) with ghost interaction logs", design="4/C07"),
  "C08": dict(
    text="Proof (Verus): failure counter (+1 saturating on failure, reset on success, ping included), persist_data = context block, app block, commit; Context::persist/load exact key encoding; "
-        "round-trip lemma and crash-prefix lemma over the storage log (a crash at any point exposes exactly the last completed commit); StorageExt::{set_option_int, remove_or_log, commit_or_log} (real provided methods) issue exactly the one operation the state-machine contracts count on.",
+        "StateMachineBuilder::build (the real body: lock, join!(app_set.load, Context::load)) starts a rebuilt machine from exactly what storage holds and writes nothing; round-trip lemma and crash-prefix lemma over the storage log (a crash at any point exposes exactly the last completed commit); StorageExt::{set_option_int, remove_or_log, commit_or_log} (real provided methods) issue exactly the one operation the state-machine contracts count on.",
    note=SMNOTE + "Assumes the documented Storage contract (writes cached until an atomic commit; reads return what was last written). last_update_time rules of start_update_check pending.",
    technique="contract-based deductive verification (Verus) with ghost interaction logs", design="4/C08"),
  "C09": dict(
